@@ -301,3 +301,147 @@ func decideC18Raw(c *vh.Case, spec c18RawSpec) {
 	c.Count("raw_updates", len(spec.Updates))
 	c.Nontrivial("raw:" + c.Log.KindSignature())
 }
+
+// ---- raw legacy peers: the version named in initialize is not the version that is negotiated --------------------
+
+type c18RawLegacySpec struct {
+	Shape     string `json:"shape"`     // "raw-legacy"
+	Requested string `json:"requested"` // protocolVersion sent in initialize
+	Changes   []int  `json:"changes_ms"`
+	Kind      string `json:"kind"` // tools | prompts | resources
+}
+
+func genC18RawLegacy(r *vh.Rand) c18RawLegacySpec {
+	s := c18RawLegacySpec{Shape: "raw-legacy", Kind: r.Choose("tools", "prompts", "resources"),
+		Requested: r.Choose("2024-11-05", "2025-03-26", "2025-06-18", "2025-11-25", "2026-07-28", "2026-07-28", "2099-01-01", "2027-03-01", "1999-01-01", "garbage")}
+	at := r.Range(1, 20)
+	for i, n := 0, r.Range(1, 5); i < n; i++ {
+		s.Changes = append(s.Changes, at)
+		at += c18Gaps[r.Intn(len(c18Gaps))]
+	}
+	return s
+}
+
+func runC18RawLegacy(c *vh.Case, spec c18RawLegacySpec) {
+	log := c.Log
+	ctx := context.Background()
+	server := mcp.NewServer(&mcp.Implementation{Name: "s", Version: "1"}, nil)
+	add := func(i int) {
+		switch spec.Kind {
+		case "tools":
+			server.AddTool(&mcp.Tool{Name: fmt.Sprintf("t%d", i), InputSchema: json.RawMessage(`{"type":"object"}`)}, func(context.Context, *mcp.CallToolRequest) (*mcp.CallToolResult, error) {
+				return &mcp.CallToolResult{}, nil
+			})
+		case "prompts":
+			server.AddPrompt(&mcp.Prompt{Name: fmt.Sprintf("p%d", i)}, func(context.Context, *mcp.GetPromptRequest) (*mcp.GetPromptResult, error) {
+				return &mcp.GetPromptResult{}, nil
+			})
+		default:
+			server.AddResource(&mcp.Resource{URI: fmt.Sprintf("file:///r%d", i), Name: fmt.Sprintf("r%d", i)}, func(context.Context, *mcp.ReadResourceRequest) (*mcp.ReadResourceResult, error) {
+				return &mcp.ReadResourceResult{}, nil
+			})
+		}
+	}
+	add(0)
+	t1, t2 := mcp.NewInMemoryTransports()
+	ss, err := server.Connect(ctx, t1, nil)
+	if err != nil {
+		c.Inconclusive("server connect: %v", err)
+		return
+	}
+	conn, err := t2.Connect(ctx)
+	if err != nil {
+		c.Inconclusive("raw connect: %v", err)
+		return
+	}
+	rctx, stopReader := context.WithCancel(ctx)
+	readerDone := make(chan struct{})
+	go func() {
+		defer close(readerDone)
+		for {
+			msg, err := conn.Read(rctx)
+			if err != nil {
+				return
+			}
+			switch m := msg.(type) {
+			case *jsonrpc.Response:
+				var res struct {
+					ProtocolVersion string `json:"protocolVersion"`
+				}
+				json.Unmarshal(m.Result, &res)
+				if m.Error != nil {
+					log.Add("init-refused", "err", m.Error.Error())
+				} else {
+					log.Add("init-answered", "negotiated", res.ProtocolVersion)
+				}
+			case *jsonrpc.Request:
+				log.Add("received", "method", m.Method)
+			}
+		}
+	}()
+	send := func(s string) {
+		msg, err := jsonrpc.DecodeMessage([]byte(s))
+		if err != nil {
+			panic(err)
+		}
+		conn.Write(ctx, msg)
+	}
+	send(fmt.Sprintf(`{"jsonrpc":"2.0","id":1,"method":"initialize","params":{"protocolVersion":%q,"capabilities":{"roots":{}},"clientInfo":{"name":"raw","version":"1"}}}`, spec.Requested))
+	synctestWait()
+	send(`{"jsonrpc":"2.0","method":"notifications/initialized"}`)
+	synctestWait()
+	t0 := time.Now()
+	log.ResetStart()
+	for i, at := range spec.Changes {
+		time.Sleep(time.Until(t0.Add(ms(at))))
+		log.Add("change", "i", i+1)
+		add(i + 1)
+	}
+	time.Sleep(300 * time.Millisecond)
+	log.Add("quiet")
+	conn.Close()
+	ss.Wait()
+	stopReader()
+	<-readerDone
+	time.Sleep(11 * time.Second)
+}
+
+func decideC18RawLegacy(c *vh.Case, spec c18RawLegacySpec) {
+	evs := c.Log.Events()
+	negotiated, refused := "", false
+	var lastChange int64 = -1
+	var notes []int64
+	for _, e := range evs {
+		switch e.Kind {
+		case "init-answered":
+			negotiated = fstr(e, "negotiated")
+		case "init-refused":
+			refused = true
+		case "change":
+			lastChange = e.T
+		case "received":
+			if fstr(e, "method") == c18Method(spec.Kind) {
+				notes = append(notes, e.T)
+			}
+		}
+	}
+	if refused {
+		c.Seen("raw_legacy", spec.Requested+"->refused")
+		return // the server may refuse a version; nothing to notify then
+	}
+	if negotiated == "" {
+		c.Inconclusive("initialize was never answered")
+		return
+	}
+	c.Seen("raw_legacy", spec.Requested+"->"+negotiated)
+	if negotiated >= "2026-07-28" {
+		return // not a legacy session (cannot happen through initialize today)
+	}
+	if len(notes) == 0 || notes[len(notes)-1] < lastChange {
+		c.Violate("change-notification-lost/"+spec.Kind, "a peer that named %q in initialize was answered with the legacy version %s; it is a connected legacy session, yet after the last %s change at %dus it received no %s (received at %v)",
+			spec.Requested, negotiated, spec.Kind, lastChange, c18Method(spec.Kind), notes)
+		return
+	}
+	c.Count("raw_legacy_sessions", 1)
+	c.Nontrivial("raw-legacy:" + spec.Requested + spec.Kind + fmt.Sprint(len(spec.Changes)))
+}
